@@ -20,6 +20,13 @@ def gen_cases(ctx):
         c.setdefault("pre", ctx.rng.choice(PRE_READS))
         c.setdefault("flavour", ctx.rng.choice(["plain", "plain", "strided", "readonly"]))
         yield c
+        # L9: the very same trajectory object passed for both arguments (every 12th case), also with an offset
+        if ctx.rng.random() < 1 / 12 and len(c["s1"]) >= 2:
+            d = dict(c)
+            d["s2"] = list(c["s1"])
+            d["same_obj"] = True
+            d["off"] = ctx.rng.choice([0.0, c["off"], (c["s1"][1] - c["s1"][0]), -(c["s1"][1] - c["s1"][0])])
+            yield d
 
 
 def gen_cases_raw(ctx):
@@ -133,10 +140,12 @@ def run_impl_(case):
            "match_repeatable": (list(i1), list(i2)) == (list(j1), list(j2)),
            "match_inputs_unchanged": s1.tobytes() == b1 and s2.tobytes() == b2}
     route, pre = case.get("route", "xyzquat"), case.get("pre", [])
-    t1, t2 = make_traj(case["s1"], 1, route, pre), make_traj(case["s2"], 2, route, pre)
+    t1 = make_traj(case["s1"], 1, route, pre)
+    t2 = t1 if case.get("same_obj") else make_traj(case["s2"], 2, route, pre)
     # twins built the same way are what the inputs must still look like afterwards; the objects under test
     # are not read before the call beyond what `pre` says
-    w1, w2 = make_traj(case["s1"], 1, route, pre), make_traj(case["s2"], 2, route, pre)
+    w1 = make_traj(case["s1"], 1, route, pre)
+    w2 = w1 if case.get("same_obj") else make_traj(case["s2"], 2, route, pre)
     before = (snap(w1), snap(w2))
     try:
         o1, o2 = sync.associate_trajectories(t1, t2, case["md"], case["off"])
@@ -158,7 +167,8 @@ def run_impl_(case):
                     exact = False
         out["assoc"] = {"ids1": ids[0], "ids2": ids[1], "copies_exact": exact,
                         "n1": int(o1.num_poses), "n2": int(o2.num_poses),
-                        "independent": not (np.shares_memory(o1.timestamps, t1.timestamps)
+                        "independent": not (o1 is o2 or np.shares_memory(o1.timestamps, o2.timestamps)
+                                            or np.shares_memory(o1.timestamps, t1.timestamps)
                                             or np.shares_memory(o2.positions_xyz, t2.positions_xyz)
                                             or any(a is b for a in o1.poses_se3 for b in t1.poses_se3)
                                             or any(a is b for a in o2.poses_se3 for b in t2.poses_se3))}
@@ -225,6 +235,8 @@ def judge(ctx, case, impl, outs):
     ctx.count("dist", case["kind"] + ":" + case.get("shape", ""))
     ctx.count("dist", "route:" + case.get("route", "xyzquat") + "/pre:" + "+".join(case.get("pre", [])))
     ctx.count("dist", "array-flavour:" + case.get("flavour", "plain"))
+    if case.get("same_obj"):
+        ctx.count("dist", "same-object-for-both-arguments")
     ctx.count("dist", "len1%s2" % ("<" if len(case["s1"]) < len(case["s2"]) else "=" if len(case["s1"]) == len(case["s2"]) else ">"))
     ctx.count("dist", "offset" + ("0" if case["off"] == 0 else "+" if case["off"] > 0 else "-"))
     if model_assoc == "E_SYNC":
